@@ -13,5 +13,5 @@ CONSTANTS
   InitRate = 1
   F6Quirk = FALSE
   F7Quirk = FALSE
-INVARIANTS NoError Conservation NeverBroadcastRevoked SecretsInOrder Mirror RestoreFaithful
+INVARIANTS NoError Conservation NeverBroadcastRevoked SecretsInOrder Mirror RestoreFaithful FwdPkgsComplete
 CHECK_DEADLOCK FALSE
